@@ -167,15 +167,6 @@ def toLowerAscii (t : Text) : Text := t.map asciiLower
 
 def eqIgnoreAsciiCase (a b : Text) : Bool := toLowerAscii a == toLowerAscii b
 
-/-- Lexicographic comparison by code point — equals Rust's byte-wise `str`
-    ordering because UTF-8 preserves code point order. -/
-def cmpText : Text → Text → Ordering
-  | [], [] => .eq
-  | [], _ :: _ => .lt
-  | _ :: _, [] => .gt
-  | a :: as, b :: bs =>
-    if a.val < b.val then .lt else if b.val < a.val then .gt else cmpText as bs
-
 def ofString (s : String) : Text := s.toList
 def toString (t : Text) : String := String.ofList t
 
